@@ -63,7 +63,7 @@ def run_case(case):
         except Exception as e:  # noqa: BLE001
             return {"stage": "read", "error": type(e).__name__, "msg": str(e)[:300]}
         try:
-            res["objects"] = wholefile.object_lines(p)
+            res["objects"] = wholefile.object_lines(wholefile.read_text(text, limit, sc, "twin.imcnp"))
         except Exception as e:  # noqa: BLE001
             res["objects_error"] = type(e).__name__ + ": " + str(e)[:200]
         try:
